@@ -198,13 +198,13 @@ impl Scenario for CtrJump {
                 }
                 _ => {}
             }
-            // invariant through the hook getter: the counter is the index of the next block to generate,
-            // i.e. ceil(position / 64); exactly on a block boundary an implementation that refills eagerly
-            // is one ahead, which is accepted too (the keystream is what the property constrains)
+            // invariant through the hook getter: the counter names the block the stream stands in or the one after
+            // it. Which of the two depends on bookkeeping the property does not constrain (refill eagerly or lazily,
+            // increment before or after generating a block), so both are accepted at every position; a counter
+            // anywhere else is state corruption. The keystream comparison is what the property constrains.
             let want_ctr = blk.wrapping_add(if off > 0 { 1 } else { 0 }) & mask;
             let got_ctr = real.counter();
-            let eager_ok = off == 0 && op.k != K_JUMP && got_ctr == (blk.wrapping_add(1) & mask);
-            if got_ctr != want_ctr && !eager_ok {
+            if got_ctr != (blk & mask) && got_ctr != (blk.wrapping_add(1) & mask) {
                 return Err(Violation::new("counter-invariant", i, format!("{:#x}", want_ctr), format!("{:#x}", got_ctr), format!("{}: block counter after op (model position block {:#x} offset {})", sp.v.name, blk, off)));
             }
         }
